@@ -1226,3 +1226,45 @@ FUNCTIONS += [
         ret_rules=[(r'^DEFAULT_RETURN$', 'default_return'), (r'^HANDLER_CALL$', 'handler_call')],
     ),
 ]
+
+# ----------------------------------------------------------------------------------------------
+# range_is / range_starts_with / range_ends_with with listed elements (C11): an iterator into the range, a lambda that
+# takes the next member and matches it, and the pack fold `all_true = all_true && match(elements)...`.
+# The iterator is modelled by the list of members still ahead of it; the lambda + fold are read — by one exact-text
+# rule — as "for each listed element, in order, while all_true: take the next member (none left: false) and match it".
+
+EL_STEP = ('match it with\n| [] => all_true := false\n| v :: rest =>\n  all_true := accepts compare v\n  it := rest')
+EL_LAMBDA_FOLD = (r'(?s)const auto match = \[&\]\(const auto\s*&\s*compare\)\s*\{\s*if \(it == e\) return false;\s*const auto\s*&\s*v = \*it\+\+;\s*'
+                  r'return trompeloeil::param_matches\(compare, std::ref\(v\)\);\s*\};\s*'
+                  r'trompeloeil::ignore\(std::initializer_list<bool>\{\s*\(all_true = all_true && match\(elements\)\)\s*\.\.\.\}\);',
+                  'for (auto& compare : elements) { if (all_true) { STEP(compare); } }')
+# ends_with: the size guard in front makes "none left" unreachable, so its lambda has no `it == e` test
+EL_LAMBDA_FOLD_NOCHECK = (r'(?s)const auto match = \[&\]\(const auto\s*&\s*compare\)\s*\{\s*const auto\s*&\s*v = \*it\+\+;\s*'
+                          r'return trompeloeil::param_matches\(compare, std::ref\(v\)\);\s*\};\s*'
+                          r'trompeloeil::ignore\(std::initializer_list<bool>\{\s*\(all_true = all_true && match\(elements\)\)\s*\.\.\.\}\);',
+                          'for (auto& compare : elements) { if (all_true) { STEP(compare); } }')
+EL_PRE = [(r'using std::begin;', ''), (r'using std::end;', ''), (r'auto it = begin\(range\);', 'auto it = range;'),
+          (r'const auto e = end\(range\);', '')]
+EL_COMMON = dict(
+    lean_sig='{α μ : Type} (accepts : μ → α → Bool) (range : List α) (elements : List μ) : Bool',
+    vars={'elements': 'elements', 'range': 'range'}, local_types={'all_true': 'Bool'},
+    decl_rules=[(r'^auto it = range$', 'let mut it : List α := range'), (r'^bool all_true = true$', 'let mut all_true : Bool := true')],
+    stmt_rules=[(r'^STEP\(compare\)$', EL_STEP)],
+)
+
+FUNCTIONS += [
+    dict(EL_COMMON, name='is_elements', cxx='impl::is_elements_checker::operator()', file=RANGE, module='IsElements',
+         header=r'struct is_elements_checker\s*\{\s*template <typename R, typename \.\.\. Es>\s*bool operator\(\)\(const R& range, const Es& \.\.\. elements\) const',
+         pre=EL_PRE + [EL_LAMBDA_FOLD],
+         ret_rules=[(r'^all_true && it == e$', '(all_true && it.isEmpty)')]),
+    dict(EL_COMMON, name='starts_with_elements', cxx='impl::starts_with_elements_checker::operator()', file=RANGE, module='StartsWithElements',
+         header=r'struct starts_with_elements_checker\s*\{\s*template <typename R, typename \.\.\. Es>\s*bool operator\(\)\(const R& range, const Es& \.\.\. elements\) const',
+         pre=EL_PRE + [EL_LAMBDA_FOLD]),
+    dict(EL_COMMON, name='ends_with_elements', cxx='impl::ends_with_checker::operator()', file=RANGE, module='EndsWithElements',
+         header=r'struct ends_with_checker\s*\{\s*template <typename R, typename\.\.\. Es>\s*bool operator\(\)\(const R &range, const Es &\.\.\.elements\) const',
+         pre=EL_PRE + [EL_LAMBDA_FOLD_NOCHECK,
+                       (r'static_cast<std::ptrdiff_t>\(sizeof\.\.\.\(elements\)\)', 'NUM_ELEMENTS'), (r'std::distance\(it, e\)', 'REMAINING')],
+         decl_rules=EL_COMMON['decl_rules'] + [(r'^const auto num_values = NUM_ELEMENTS$', 'let num_values := elements.length'),
+                                               (r'^const auto size = REMAINING$', 'let size := it.length')],
+         stmt_rules=EL_COMMON['stmt_rules'] + [(r'^std::advance\(it, size - num_values\)$', 'it := it.drop (size - num_values)')]),
+]
